@@ -244,7 +244,24 @@ def _hyp_settings(examples: int, shrink: bool = False, step_count: t.Optional[in
     return settings(**kw)
 
 
+def _cleanup(pid: str) -> None:
+    """Pool workers leave through os._exit, so atexit handlers never run: properties with scratch files clean up here."""
+    try:
+        fn = getattr(load_prop(pid), 'cleanup', None)
+        if fn is not None:
+            fn()
+    except Exception:
+        pass
+
+
 def worker(args: t.Tuple[str, str, int, int, int, t.Optional[str]]) -> t.Dict[str, t.Any]:
+    try:
+        return _worker(args)
+    finally:
+        _cleanup(args[0])
+
+
+def _worker(args: t.Tuple[str, str, int, int, int, t.Optional[str]]) -> t.Dict[str, t.Any]:
     """Explore one shard of every suite of one property.  Never raises for a pane defect."""
     (pid, tier, seed, shard, nshards, only_suite) = args
     import warnings
@@ -320,6 +337,13 @@ def _run_suite(pid: str, suite: Suite, seed: int, shard: int, nshards: int, acc:
 
 
 def shrink_worker(args: t.Tuple[str, str, int, int, str, str, float]) -> t.Optional[str]:
+    try:
+        return _shrink_worker(args)
+    finally:
+        _cleanup(args[0])
+
+
+def _shrink_worker(args: t.Tuple[str, str, int, int, str, str, float]) -> t.Optional[str]:
     """Second pass: re-find ``key`` with the same seed, let Hypothesis shrink it, return the smallest case (encoded)."""
     (pid, tier, seed, shard, suite_name, key, budget) = args
     import warnings
